@@ -1,7 +1,7 @@
 SPECIFICATION Spec
 CONSTANTS
-  MaxLen = 2
-  Alphabet = "small"
+  MaxLen = 4
+  Alphabet = "noread"
   Dev_DupUserStucksObject = FALSE
   Dev_AuthFloodCrashes = FALSE
   Dev_HostileCountCrashes = FALSE
